@@ -361,12 +361,72 @@ def m_bare_initializers():
     return model([x], [c.outputs[0], b.outputs[0]], [a, b, c], [w_small, w_big, w_mid])
 
 
+def m_shadow_input():
+    """a main-graph input that no top-level node consumes (captured by the else-branch only) and a then-branch
+    initializer that shadows its NAME; plus an unused main-graph input"""
+    x = fval("x")
+    cond = ir.val("cond", ir.DataType.BOOL, [])
+    k = fval("k")
+    unused_in = fval("spare")
+    kc = const("k", arr(7))                                  # shadows the outer input name inside the then-branch
+    sc = const("spare", arr(8))                              # shadows the unused input
+    t1 = node("Add", [kc, sc], name="t1")
+    then_g = ir.Graph([], [t1.outputs[0]], nodes=[t1], initializers=[kc, sc], name="then_g")
+    e1 = node("Neg", [k], name="e1")                          # captures the outer input
+    else_g = ir.Graph([], [e1.outputs[0]], nodes=[e1], name="else_g")
+    iff = node("If", [cond], {"then_branch": then_g, "else_branch": else_g}, name="iff")
+    out = node("Add", [iff.outputs[0], x], name="out")
+    return model([x, cond, k, unused_in], [out.outputs[0]], [iff, out])
+
+
+def m_branch_returns_initializer():
+    """an If branch that returns one of its own initializers directly, next to a computed output and dead code"""
+    x = fval("x")
+    cond = ir.val("cond", ir.DataType.BOOL, [])
+    bias = const("bias", arr(4))
+    tb = const("tb", arr(5))
+    t1 = node("Add", [x, tb], name="t1")
+    dead = node("Neg", [x], name="t_dead")
+    then_g = ir.Graph([], [t1.outputs[0], bias], nodes=[t1, dead], initializers=[bias, tb], name="then_g")
+    e1 = node("Relu", [x], name="e1")
+    e2 = node("Abs", [x], name="e2")
+    else_g = ir.Graph([], [e1.outputs[0], e2.outputs[0]], nodes=[e1, e2], name="else_g")
+    iff = node("If", [cond], {"then_branch": then_g, "else_branch": else_g}, n_out=2, name="iff")
+    s = node("Add", [iff.outputs[0], iff.outputs[1]], name="s")
+    return model([x, cond], [s.outputs[0]], [iff, s])
+
+
+def m_batchnorm():
+    """BatchNormalization with an explicit training_mode and only its first output; one with unused named extra outputs"""
+    x = fval("x", (1, 2, 3))
+    sc = const("bn_scale", np.ones(2, dtype=np.float32))
+    bi = const("bn_bias", np.zeros(2, dtype=np.float32))
+    mean = const("bn_mean", np.zeros(2, dtype=np.float32))
+    var = const("bn_var", np.ones(2, dtype=np.float32))
+    bn1 = node("BatchNormalization", [x, sc, bi, mean, var], {"training_mode": 0, "epsilon": 1e-3}, name="bn1")
+    bn2 = node("BatchNormalization", [bn1.outputs[0], sc, bi, mean, var], {"training_mode": 1}, n_out=3, name="bn2")
+    r = node("Relu", [bn2.outputs[0]], name="r")
+    return model([x], [r.outputs[0]], [bn1, bn2, r], [sc, bi, mean, var])
+
+
+def m_batchnorm_inference():
+    """a single live BatchNormalization with an explicit training_mode=0 and only its first output: nothing else is removable"""
+    x = fval("x", (1, 2, 3))
+    sc = const("bn_scale", np.ones(2, dtype=np.float32))
+    bi = const("bn_bias", np.zeros(2, dtype=np.float32))
+    mean = const("bn_mean", np.zeros(2, dtype=np.float32))
+    var = const("bn_var", np.ones(2, dtype=np.float32))
+    bn = node("BatchNormalization", [x, sc, bi, mean, var], {"training_mode": 0}, name="bn")
+    return model([x], [bn.outputs[0]], [bn], [sc, bi, mean, var])
+
+
 MODELS = {
     "dup_add": m_dup_add, "dup_attr": m_dup_attr, "optional_inputs": m_optional_inputs, "multi_output": m_multi_output,
     "identity": m_identity, "dup_initializers": m_dup_initializers, "constants": m_constants, "if_capture": m_if_capture,
     "nested_if": m_nested_if, "loop": m_loop, "functions": m_functions, "function_old_opset": m_function_old_opset,
     "alias_outputs": m_alias_outputs, "unsorted": m_unsorted, "random": m_random, "init_inputs": m_init_inputs, "name_clash": m_name_clash,
-    "bare_initializers": m_bare_initializers,
+    "bare_initializers": m_bare_initializers, "shadow_input": m_shadow_input, "branch_returns_initializer": m_branch_returns_initializer,
+    "batchnorm": m_batchnorm, "batchnorm_inference": m_batchnorm_inference,
 }
 
 
